@@ -9,94 +9,94 @@ class PgpError(Exception):
 
 
 # ------------------------------------------------------------------------------------------------ packets
-def read_packets(b):
-    """list of (tag, body_start, body_end, header_start). Partial body lengths are joined (body returned separately)."""
+def _new_len(b, p, n):
+    l = b[p]
+    if l < 192:
+        return l, p + 1, False
+    if l < 224:
+        if p + 2 > n:
+            raise PgpError("truncated length")
+        return ((l - 192) << 8) + b[p + 1] + 192, p + 2, False
+    if l == 255:
+        if p + 5 > n:
+            raise PgpError("truncated length")
+        return struct.unpack_from(">I", b, p + 1)[0], p + 5, False
+    return 1 << (l & 0x1f), p + 1, True
+
+
+def _one_packet(b, p, n, have_earlier):
+    """returns (next position, (tag, [(start, end) body chunks], None, header start))"""
+    h = p
+    c = b[p]
+    if not c & 0x80:
+        raise PgpError("packet tag without MSB at %d" % p)
+    p += 1
+    if p >= n:
+        raise PgpError("truncated length")
+    if c & 0x40:
+        tag = c & 0x3f
+        chunks = []
+        while True:
+            if p >= n:
+                raise PgpError("partial body without end")
+            ln, p, partial = _new_len(b, p, n)
+            if tag == 4 and not partial:
+                ln = 13     # one-pass signature packets have a fixed size; readers do not use the declared length
+            if p + ln > n:
+                # a reader that consumes the fields it needs does not notice an over-long declared length on the only packet
+                if have_earlier or partial or p >= n:
+                    raise PgpError("packet body overruns data")
+                ln = n - p
+            chunks.append((p, p + ln))
+            p += ln
+            if not partial:
+                break
+        return p, (tag, chunks, None, h)
+    tag = (c >> 2) & 0xf
+    lt = c & 3
+    if lt == 0:
+        ln = b[p]
+        p += 1
+    elif lt == 1:
+        if p + 2 > n:
+            raise PgpError("truncated length")
+        ln = struct.unpack_from(">H", b, p)[0]
+        p += 2
+    elif lt == 2:
+        if p + 4 > n:
+            raise PgpError("truncated length")
+        ln = struct.unpack_from(">I", b, p)[0]
+        p += 4
+    else:
+        ln = n - p
+    if tag == 4:
+        ln = 13         # one-pass signature packets have a fixed size; readers do not use the declared length
+    if p + ln > n:
+        if have_earlier or p >= n:
+            raise PgpError("packet body overruns data")
+        ln = n - p
+    return p + ln, (tag, [(p, p + ln)], None, h)
+
+
+def read_packets(b, prefix=False):
+    """list of (tag, [(start, end) body chunks], None, header_start). With prefix=True parsing stops quietly at the first byte
+    sequence that is not a packet, provided at least one packet was read (bytes after a complete message are not part of it)."""
     out = []
     p = 0
     n = len(b)
     while p < n:
-        h = p
-        c = b[p]
-        if not c & 0x80:
-            raise PgpError("packet tag without MSB at %d" % p)
-        p += 1
-        if c & 0x40:
-            tag = c & 0x3f
-            if p >= n:
-                raise PgpError("truncated length")
-            l = b[p]
-            if l < 192:
-                ln = l
-                p += 1
-            elif l < 224:
-                if p + 2 > n:
-                    raise PgpError("truncated length")
-                ln = ((l - 192) << 8) + b[p + 1] + 192
-                p += 2
-            elif l == 255:
-                if p + 5 > n:
-                    raise PgpError("truncated length")
-                ln = struct.unpack_from(">I", b, p + 1)[0]
-                p += 5
-            else:
-                # partial body lengths: collect chunks
-                chunks = []
-                while True:
-                    l = b[p]
-                    if 224 <= l < 255:
-                        cl = 1 << (l & 0x1f)
-                        p += 1
-                        if p + cl > n:
-                            raise PgpError("partial chunk overruns")
-                        chunks.append((p, p + cl))
-                        p += cl
-                        if p >= n:
-                            raise PgpError("partial body without end")
-                        continue
-                    if l < 192:
-                        cl = l
-                        p += 1
-                    elif l < 224:
-                        cl = ((l - 192) << 8) + b[p + 1] + 192
-                        p += 2
-                    else:
-                        cl = struct.unpack_from(">I", b, p + 1)[0]
-                        p += 5
-                    if p + cl > n:
-                        raise PgpError("last chunk overruns")
-                    chunks.append((p, p + cl))
-                    p += cl
-                    break
-                out.append((tag, chunks, None, h))
-                continue
-        else:
-            tag = (c >> 2) & 0xf
-            lt = c & 3
-            if lt == 0:
-                ln = b[p] if p < n else None
-                p += 1
-            elif lt == 1:
-                if p + 2 > n:
-                    raise PgpError("truncated length")
-                ln = struct.unpack_from(">H", b, p)[0]
-                p += 2
-            elif lt == 2:
-                if p + 4 > n:
-                    raise PgpError("truncated length")
-                ln = struct.unpack_from(">I", b, p)[0]
-                p += 4
-            else:
-                ln = n - p
-            if ln is None:
-                raise PgpError("truncated length")
-        if p + ln > n:
-            # a reader that consumes the fields it needs does not notice an over-long declared length on the last packet
-            if out or p >= n:
-                raise PgpError("packet body overruns data")
-            ln = n - p
-        out.append((tag, [(p, p + ln)], None, h))
-        p += ln
+        try:
+            p, pkt = _one_packet(b, p, n, bool(out))
+        except (PgpError, IndexError):
+            if prefix and out:
+                break
+            raise PgpError("bad packet at %d" % p)
+        out.append(pkt)
     return out
+
+
+def read_packets_prefix(b):
+    return read_packets(b, prefix=True)
 
 
 def body(b, pkt):
@@ -153,7 +153,9 @@ def _mpis(s, p):
 # ------------------------------------------------------------------------------------------------ armor
 def dearmor(txt, kind=b"PGP SIGNATURE"):
     """returns (binary, span of the base64 body inside txt). The optional CRC-24 line and armor headers are not content."""
-    m = re.search(rb"-----BEGIN " + kind + rb"-----[ \t]*\r?\n(.*?)\r?\n-----END " + kind + rb"-----", txt, flags=re.S)
+    # the END line only terminates the body; the base64 data is self-delimiting (padding / CRC line), so a damaged END line is framing
+    # (the armor type named on the BEGIN line is a label; readers take whatever block follows)
+    m = re.search(rb"-----BEGIN [^\r\n]*?-----[ \t]*\r?\n(.*?)(?:\r?\n-----END [^\r\n]*-----|\r?\n-[^\n]*\Z|\Z)", txt, flags=re.S)
     if not m:
         raise PgpError("no armor")
     inner = m.group(1)
@@ -194,7 +196,8 @@ def detached_view(sig):
 
 
 def clearsign_parts(b):
-    m = re.match(rb"\A(-----BEGIN PGP SIGNED MESSAGE-----[ \t]*\r?\n)((?:[A-Za-z]+: [^\r\n]*\r?\n)*)([ \t]*\r?\n)", b)
+    # header lines run to the first empty line; they are not signed text (a reader may ignore those it does not understand)
+    m = re.match(rb"\A(-----BEGIN PGP SIGNED MESSAGE-----[ \t]*\r?\n)((?:[^\r\n]*[^\r\n \t][^\r\n]*\r?\n)*)([ \t]*\r?\n)", b)
     if not m:
         raise PgpError("no cleartext header")
     start = m.end()
@@ -234,7 +237,7 @@ def inline_view(b):
     """signed message: [one-pass sig] literal data [signature]; the literal data BODY is protected, its file name / date are not"""
     try:
         raw = maybe_dearmor(b, b"PGP MESSAGE")
-        pk = read_packets(raw)
+        pk = read_packets_prefix(raw)
         lit, sigs = None, []
         for p in pk:
             if p[0] == 11:
@@ -242,7 +245,7 @@ def inline_view(b):
                 if len(d) < 6:
                     raise PgpError("short literal")
                 fl = d[1]
-                lit = (d[0:1], d[2 + fl + 4:]) if lit is None else ("dup",)
+                lit = (d[2 + fl + 4:],) if lit is None else ("dup",)        # format octet, file name and date are not hashed
             elif p[0] == 2:
                 sigs.append(sig_view(body(raw, p))[0])
             elif p[0] == 4:
@@ -274,7 +277,9 @@ def ar_members(b):
         except ValueError:
             raise PgpError("bad ar size")
         if p + 60 + size > len(b):
-            raise PgpError("ar member overruns")
+            if p + 60 + size > len(b) + 2:
+                raise PgpError("ar member overruns")
+            size = len(b) - p - 60      # a final member cut inside its last line break: readers that stop at EOF see the same content
         out.append((name, p, p + 60, p + 60 + size))
         p += 60 + size
         if p % 2 and p < len(b):
@@ -387,6 +392,8 @@ def rpm_view(b):
                 pk = read_packets(v)
                 sigs.append((tag,) + tuple(sig_view(body(v, p))[0] for p in pk))
             elif tag in RPM_DIGEST_TAGS:
+                if typ != (7 if tag == 1004 else 6):
+                    continue
                 s, e = rpm_tag_value(b, stags, sdata, send, i)
                 v = bytes(b[s:e])
                 # an entry of the wrong type, or an empty string, is not a digest (same as an absent tag)
@@ -411,6 +418,16 @@ def rpm_neutral(v0, v1):
     """each signature in the (unauthenticated) signature header stands alone: dropping one of several signatures made by the
     same key, while the header signature remains and the header carries the payload digest, alters nothing that is protected"""
     return v0[:3] == v1[:3] and v0[4] == v1[4] and v1[3] <= v0[3] and len(v1[3]) >= 1
+
+
+def rpm_classify(v0, v1):
+    try:
+        new = sorted(v1[4] - v0[4])
+        if new and v0[:4] == v1[:4]:
+            return "digest-tag-%s-unchecked" % "+".join(str(t) for t in new)
+    except (TypeError, IndexError):
+        pass
+    return None
 
 
 def rpm_regions(b):
